@@ -135,7 +135,9 @@ theorem step_fresh (sp : Spec) (w : World) (ev : Event) (h : Fresh w.tasks) : Fr
             · exact h
             · split
               · exact h
-              · exact Fresh_setTask _ _ h (fun _ => rfl)
+              · split
+                · exact h
+                · exact Fresh_setTask _ _ h (fun _ => rfl)
     | jobRefresh t =>
       simp only [step]
       split
